@@ -453,7 +453,11 @@ func writeComputedFieldExpression(w *formatting.IndentedWriter, expression dsl.E
 				case dsl.BinaryOpMul:
 					w.WriteString("*")
 				case dsl.BinaryOpDiv:
-					w.WriteString("//")
+					if dsl.IsIntegralType(t.ResolvedType) {
+						w.WriteString("//")
+					} else {
+						w.WriteString("/")
+					}
 				case dsl.BinaryOpPow:
 					w.WriteString("**")
 				default:
